@@ -55,7 +55,7 @@ fn main() {
     let args: Vec<String> = std::env::args().collect();
     let seed: u64 = args[1].parse().unwrap();
     let n: usize = args[2].parse().unwrap();
-    std::panic::set_hook(Box::new(|_| {}));
+    ezpz_verif_harness::oracle::arm_crash_reporter("C10");
     let mut rng = Rng::new(seed);
     let mut out: Vec<Violation> = Vec::new();
     let mut digest: u64 = 0xcbf29ce484222325;
@@ -108,6 +108,7 @@ fn main() {
     for idx in order {
         let sys = all[idx].clone();
         systems += 1;
+        ezpz_verif_harness::oracle::note_current(&sys);
         let a1 = run_plain(&sys, false);
         let a2 = run_plain(&sys, false);
         let b1 = run_plain(&sys, true);
